@@ -17,6 +17,7 @@ Hooks_none3 == ("A" :> {}) @@ ("B" :> {}) @@ ("C" :> {})
 Flags_none == [m \in Mods |-> <<{}>>]
 Hooks_ps3 == ("A" :> {}) @@ ("B" :> {"stop"}) @@ ("C" :> {})
 Hooks_sys == ("A" :> {"start"}) @@ ("B" :> {})
+Hooks_tickh == ("A" :> {"start"}) @@ ("B" :> {"eval"})
 Hooks_ctx == ("A" :> {"stop"}) @@ ("B" :> {"eval"})
 \* C15: A may be replaced and is persistent; B is denied everything
 Flags_perm == ("A" :> <<{"REPLACE", "PERSIST"}, {}>>) @@ ("B" :> <<{"DENYCTX", "DENYPUB", "DENYSUB"}>>)
